@@ -90,6 +90,15 @@ func workerRules(c *Ctx) {
 					okf = isMk && P.Before(q.fn, an.Is(sts[0]), goDo) && P.Before(q.fn, an.Is(sts[0]), goWait)
 				}
 				q.add("PATH", "fresh "+f+" is published before the instance starts", okf, "store of a new channel dominates the go statements", sts...)
+				// ... and then the instance and its watcher are started, whatever else happens: no return and no panic
+				// (an argument check, say) lies between filling the slot and the two go statements - a filled slot with
+				// nobody behind it makes every later Do believe an instance is running
+				if len(sts) == 1 {
+					exit := func(in ssa.Instruction) bool { return an.IsReturn(in) || an.IsPanic(in) }
+					started := !P.PathExists(q.fn, sts[0], exit, an.Is(goDo), nil) && !P.PathExists(q.fn, sts[0], exit, an.Is(goWait), nil)
+					q.add("PATH", "a filled instance slot ("+f+") always gets its instance and watcher", started,
+						pickS(started, "from the store every way out of Do passes both go statements", "Do can leave (return or panic) after "+f+" was set but before the instance and its watcher were started: the Worker then looks busy for ever and no later Do starts anything"), sts[0])
+				}
 			}
 			// do gets the function passed to Do
 			runsFn := usesValue(P, callArg(goDo, 1), q.fn.Params[1])
